@@ -329,6 +329,8 @@ def c03_rf11(run):
     rf_flow.rf52(run)
     rf_flow.rf53(run)
     rf_inline.rf56(run)
+    rf_x86.rf64(run)
+    run.min_instances('RF64', 10)
 
 
 def c06_rf11(run):
@@ -361,6 +363,8 @@ def c05_rf10(run):
     rf_abi.rf10h(run)
     rf_abi.rf10i(run)
     rf_abi.rf10j(run)
+    rf_abi.rf65(run)
+    run.min_instances('RF65', 2)
     rf_dispatch.rf7e(run, units=('gen',), expect=1)
     rf_dispatch.rf7f(run)
     run.min_instances('RF7f', 30)
@@ -374,6 +378,8 @@ def c06_rf10(run):
     rf_abi.rf10e(run)
     rf_abi.rf10f(run)
     rf_abi.rf10g(run)
+    rf_abi.rf65(run)
+    run.min_instances('RF65', 2)
     rf_dispatch.rf7f(run)
     run.min_instances('RF7f', 30)
 
@@ -386,6 +392,8 @@ def c02_rf9(run):
     rf_x86.rf9m(run)
     rf_x86.rf63(run)
     run.min_instances('RF63', 5)
+    rf_x86.rf64(run)
+    run.min_instances('RF64', 10)
 
 
 def c02_rf26(run):
